@@ -84,9 +84,32 @@ pub fn classify(site: &str, v: &Verdict) -> String {
   format!("{}|valid={}|pts={}|{}", site, v.valid as u8, v.pts as u8, v.flags)
 }
 
+/// "sep" when one operand lies entirely before the other on the time axis (touching allowed) or one
+/// is empty, "mix" when their time supports interleave: the known defects of the state machine (D10)
+/// all need interleaved operands
+fn time_relation(a: &StMoc, b: &StMoc) -> &'static str {
+  let span = |m: &StMoc| -> Option<(u64, u64)> {
+    let lo = m.elems.iter().flat_map(|(t, _)| t.iter().map(|r| r.0)).min()?;
+    let hi = m.elems.iter().flat_map(|(t, _)| t.iter().map(|r| r.1)).max()?;
+    Some((lo, hi))
+  };
+  match (span(a), span(b)) {
+    (Some((la, ha)), Some((lb, hb))) => {
+      if ha <= lb || hb <= la {
+        "sep"
+      } else {
+        "mix"
+      }
+    }
+    _ => "sep",
+  }
+}
+
 pub fn check_pair(rep: &mut Report, orc: &mut Oracle, a: &StMoc, b: &StMoc) -> bool {
   let mut ok = true;
   let case = format!("STOR {} | {}", a.show(), b.show());
+  let site = format!("or|{}", time_relation(a, b));
+  let mut first_out: Option<(String, StMoc)> = None;
   for (name, r) in variants(a, b) {
     rep.evaluations += 1;
     rep.count("union-variant");
@@ -106,6 +129,16 @@ pub fn check_pair(rep: &mut Report, orc: &mut Oracle, a: &StMoc, b: &StMoc) -> b
           ok = false;
           rep.violation("ST union depths are not the maxima of the operands'", &format!("{} # variant={}", case, name), &format!("({}, {})", out.dt, out.ds), &format!("({}, {})", dt, ds), "C08 depths");
         }
+        // whichever form is used: the three forms must return the same ST-MOC
+        match &first_out {
+          None => first_out = Some((name.clone(), out.clone())),
+          Some((n0, o0)) => {
+            if *o0 != out {
+              ok = false;
+              rep.violation("the forms of the ST union disagree on the same operands", &format!("{} # variants={} vs {}", case, n0, name), &out.show(), &o0.show(), "C08 (whichever of the in-memory or iterator forms is used)");
+            }
+          }
+        }
         match judge(orc, "or", &out, a, b) {
           Err(e) => {
             ok = false;
@@ -114,10 +147,10 @@ pub fn check_pair(rep: &mut Report, orc: &mut Oracle, a: &StMoc, b: &StMoc) -> b
           Ok(v) => {
             if !v.pts {
               ok = false;
-              rep.violation_c("ST union does not cover exactly the pairs covered by A or B", &format!("{} # variant={}", case, name), &out.show(), "", "C08_pointset_checker_exact", &classify("or", &v));
+              rep.violation_c("ST union does not cover exactly the pairs covered by A or B", &format!("{} # variant={}", case, name), &out.show(), "", "C08_pointset_checker_exact", &classify(&site, &v));
             } else if !v.valid {
               ok = false;
-              rep.violation_c(&format!("ST union result is not a valid ST-MOC ({})", v.flags), &format!("{} # variant={}", case, name), &out.show(), "", "C08_validity_checker_exact", &classify("or", &v));
+              rep.violation_c(&format!("ST union result is not a valid ST-MOC ({})", v.flags), &format!("{} # variant={}", case, name), &out.show(), "", "C08_validity_checker_exact", &classify(&site, &v));
             }
           }
         }
@@ -135,7 +168,7 @@ pub fn run(ctx: &Ctx) -> Report {
   let mut rep = Report::default();
   let mut orc = Oracle::spawn();
   let mut rng = Rng::new(ctx.seed);
-  rep.rule = "pairs of valid ST-MOCs (u64 time x u64 space) over a time axis of 6-10 slots at the bottom or top of the time domain, <= 4 elements per operand, <= 3 time ranges per element, space parts drawn from 8 small S-MOCs realising equal / nested / overlapping / disjoint / full-sky; both operand orders; one pair in five with an operand one level deeper on the time axis (its bounds cut the other's cells), the depth every element MOC declares is checked against its ranges; or(&,&), into_or, iterator form; empty operands and A=B included; plus the pairs of an exhaustive small scope (every coverage function over 4 time slots x 2 space cells, single-range elements; quick: every 37th pair, thorough: all 65536). Each output is judged by the extracted checkers valid2db and pts_opb(or). non-trivial = both operands non-empty; distinct = distinct pair".to_string();
+  rep.rule = "pairs of valid ST-MOCs (u64 time x u64 space) over a time axis of 6-10 slots at the bottom or top of the time domain, <= 4 elements per operand, <= 3 time ranges per element, space parts drawn from 8 small S-MOCs realising equal / nested / overlapping / disjoint / full-sky; both operand orders; one pair in four separated on the time axis (touching or not, equal space parts at the junction in half of them), one pair in five with an operand one level deeper on the time axis (its bounds cut the other's cells), the depth every element MOC declares is checked against its ranges; or(&,&), into_or, iterator form; empty operands and A=B included; plus the pairs of an exhaustive small scope (every coverage function over 4 time slots x 2 space cells, single-range elements; quick: every 37th pair, thorough: all 65536). The three forms must return the same ST-MOC. Each output is judged by the extracted checkers valid2db and pts_opb(or). non-trivial = both operands non-empty; distinct = distinct pair".to_string();
   // exhaustive small scope: every pair of "space coverage as a function of the time slot" over
   // 4 time slots x 2 space cells (256 x 256 functions; consecutive slots with the same non-empty
   // coverage form one single-range element), both operand orders are covered by the enumeration.
@@ -199,6 +232,16 @@ pub fn run(ctx: &Ctx) -> Report {
       let ds2 = if ds < 29 && rng.chance(1, 2) { ds + 1 } else { ds };
       b = gen_stmoc(&mut rng, dt + 1, ds2, (2 * nslots).min(16), 2 * base, 4, 3);
       rep.count("pairs:right-operand-deeper");
+    }
+    if i % 4 == 1 && base == 0 && 2 * nslots <= ncells {
+      // operands separated on the time axis: b lives on the slots after a's (they touch when a ends on
+      // its last slot and b starts on its first one; the junction elements often have equal space parts)
+      b = gen_stmoc(&mut rng, dt, ds, nslots, nslots, 4, 3);
+      if rng.chance(1, 2) && !a.elems.is_empty() && !b.elems.is_empty() {
+        let s = a.elems.last().unwrap().1.clone();
+        b.elems[0].1 = s;
+      }
+      rep.count("pairs:time-separated");
     }
     check_pair(&mut rep, &mut orc, &a, &b);
     check_pair(&mut rep, &mut orc, &b, &a);
